@@ -30,12 +30,14 @@ thread_local! {
     static LAST_PANIC: RefCell<Option<String>> = const { RefCell::new(None) };
     static LAST_TICKS: std::cell::Cell<u64> = const { std::cell::Cell::new(0) };
     static FN_CACHE: RefCell<HashMap<(String, u32), String>> = RefCell::new(HashMap::new());
+    static SRC_CACHE: RefCell<HashMap<(String, u32), String>> = RefCell::new(HashMap::new());
 }
 
 pub const DEFAULT_BUDGET: u64 = 300_000;
 static SHRINKING: std::sync::atomic::AtomicBool = std::sync::atomic::AtomicBool::new(false);
 /// While proptest shrinks a failing case, budgets are divided by 8 (a loop that never ends exhausts any budget);
 /// the shrunk case is re-checked under the full budget before it is reported.
+pub fn is_shrinking() -> bool { SHRINKING.load(std::sync::atomic::Ordering::Relaxed) }
 pub fn set_shrinking(on: bool) { SHRINKING.store(on, std::sync::atomic::Ordering::Relaxed); }
 
 fn mask_numbers(s: &str) -> String {
@@ -82,7 +84,15 @@ pub fn init() {
             } else { enclosing_fn() };
             // the last field is the rule type of the sub-rule that was running (or outside-rule): the enclosing function alone is too coarse,
             // `SubRule::apply` with everything inlined into it covers all four rule types
-            let sig = format!("panic|{}|{}|{}|{}", if is_asca { short_file } else { "<dep>".into() }, func, mask_numbers(msg.lines().next().unwrap_or("")), rule_type_name(verif::phase()));
+            // … and the text of the source line that panicked (white space removed, at most 60 characters): a function such as `SubRule::substitution` has dozens of
+            // index expressions; the line text tells them apart and, unlike a line number, survives edits elsewhere in the file
+            let src = if is_asca { SRC_CACHE.with(|c| c.borrow_mut().entry((file.clone(), line)).or_insert_with(|| {
+                let norm = |l: &str| l.chars().filter(|c| !c.is_whitespace()).take(60).collect::<String>().replace('|', "¦");
+                std::fs::read_to_string(&file).ok().and_then(|t| { let ls: Vec<&str> = t.lines().collect(); let i = line.saturating_sub(1) as usize; ls.get(i).map(|l| { let n = norm(l);
+                    // the same statement often occurs in several match arms: `#k` = it is the k-th line of the file with this text
+                    let k = ls[..=i].iter().filter(|x| norm(x) == n).count(); format!("{n}#{k}") }) }).unwrap_or_default()
+            }).clone()) } else { String::new() };
+            let sig = format!("panic|{}|{}|{}|{}|{}", if is_asca { short_file } else { "<dep>".into() }, func, mask_numbers(msg.lines().next().unwrap_or("")), rule_type_name(verif::phase()), src);
             LAST_PANIC.with(|p| *p.borrow_mut() = Some(sig));
         }));
         // force the lazily initialised tables outside any guarded call
@@ -102,7 +112,7 @@ pub fn guarded<T>(budget: u64, f: impl FnOnce() -> Result<T, Error>) -> Guarded<
             if let Some(b) = payload.downcast_ref::<BudgetExhausted>() {
                 Err(Abn::Budget { dominant: b.dominant_site, last: b.last_site, rule_type: b.rule_type })
             } else {
-                let sig = LAST_PANIC.with(|p| p.borrow_mut().take()).unwrap_or_else(|| "panic|?|?|?|?".into());
+                let sig = LAST_PANIC.with(|p| p.borrow_mut().take()).unwrap_or_else(|| "panic|?|?|?|?|".into());
                 Err(Abn::Panic(sig))
             }
         }
